@@ -582,7 +582,8 @@ class Evaluator(PE):
             return [(self.opaque_call(opaque_name, cargs, ckw, e, list(args) + list(kwargs.values())), p)]
         if any(d.endswith("contextmanager") for d in fi.decorators()):
             return self._contextmanager_call(fv, args, kwargs, p, e)
-        if any(isinstance(n, (ast.While, ast.Yield, ast.YieldFrom)) for n in walk_no_nested(fi.node)):
+        is_gen = any(isinstance(n, (ast.Yield, ast.YieldFrom)) for n in walk_no_nested(fi.node))
+        if any(isinstance(n, ast.While) for n in walk_no_nested(fi.node)) or (is_gen and fi.node.name not in getattr(self, "inline_generators", ())):
             return [(self.opaque_call(opaque_name, args, kwargs, e, list(args) + list(kwargs.values())), p)]
         decs = fi.decorators()
         a = fi.node.args
@@ -630,12 +631,16 @@ class Evaluator(PE):
                     env[prm.arg] = self.sym(prm.arg)
             closure = fv.closure is True
             p.frames.append({"__env__": p.env, "__visible__": closure})  # type: ignore
+            if is_gen:
+                env["__yield__"] = Lst([], name="yielded")  # simple generators: the values yielded, in order
             p.env = env
             saved_ind = dict(p.ind)
             outs = self.block(fi.node.body, [p])
             res = []
             for q in outs:
                 v = q.retv if q.ctl == "return" and q.retv is not None else Const(None)
+                if is_gen and q.ctl != "raise":
+                    v = q.env.get("__yield__", Lst([]))
                 if q.ctl == "raise":
                     fr = q.frames.pop()
                     q.env = fr["__env__"]  # type: ignore
@@ -865,6 +870,19 @@ class Evaluator(PE):
     def st_Expr(self, st, p, live):
         if isinstance(st.value, ast.Constant):
             return [p]
+        if isinstance(st.value, (ast.Yield, ast.YieldFrom)) and "__yield__" in p.env:
+            out = []
+            src = st.value.value
+            for v, q in (self.ev(src, p) if src is not None else [(Const(None), p)]):
+                acc = q.env.get("__yield__")
+                if isinstance(st.value, ast.Yield):
+                    q.env["__yield__"] = Lst(list(acc.items) + [v], acc.open, name="yielded", opens=acc.opens)
+                else:
+                    els, open_ = self.iter_elems(v, q, st.value) if isinstance(v, (Lst, Tup, Dct)) else ([], True)
+                    q.env["__yield__"] = Lst(list(acc.items) + list(els), acc.open or open_, name="yielded",
+                                             opens=tuple(acc.opens) + ((show(v),) if open_ else ()))
+                out.append(q)
+            return out
         return [q for _, q in self.ev(st.value, p)]
 
     def st_Assign(self, st, p, live):
